@@ -25,12 +25,12 @@ TRUSTED = [
 	'zlib is a parameter (C14); Range preparation is C20',
 ]
 ASSUMPTIONS = ['F23: chunked framing on an HTTP/1.0 message (asked for by the caller, left in the header fields, or switched on by the composer for a content coding) - recorded finding', 'F46: prepare() of a response to HEAD clears the body, a second prepare() then computes Content-Length: 0 - recorded finding']
-RULE = ('prepared requests and responses over body sources {bytes, bytearray, text, list, tuple, generator, BytesIO, real file, none} x lengths {0, 1, 5, 4095, 4096, 4097, 10000} x chunked {unset, on, off; in 40% switched again before a prepare() through Body.chunked, the Transfer-Encoding field, ComposedMessage.transfer_encoding / .chunked} x content coding {none, gzip, deflate} x statuses with and without bodies x request methods incl. HEAD/GET/TRACE '
+RULE = ('prepared requests and responses over body sources {bytes, bytearray, text, list, tuple, generator, BytesIO, real file (positioned at the start or, filled by write(), at the end), none} x lengths {0, 1, 5, 4095, 4096, 4097, 10000} x chunked {unset, on, off; in 40% switched again before a prepare() through Body.chunked, the Transfer-Encoding field, ComposedMessage.transfer_encoding / .chunked} x content coding {none, gzip, deflate} x statuses with and without bodies x request methods incl. HEAD/GET/TRACE '
 	'x pre-populated framing fields (stale Content-Length, Transfer-Encoding) x HTTP/1.0 and 1.1 x operation orders (prepare/compose repeated and interleaved); each output read by an independent RFC 7230 reader; non-trivial = well-framed output with a body; distinct by (framing, status/method, source, length class)')
 
 METHODS = ['GET', 'HEAD', 'POST', 'PUT', 'DELETE', 'OPTIONS', 'TRACE', 'PATCH', 'SEARCH', 'get', 'Head', 'search', 'Post']
 STATUSES = [100, 101, 102, 103, 150, 199, 200, 200, 200, 201, 202, 204, 205, 301, 304, 400, 404, 405, 413, 500, 503]
-SOURCES = ['bytes', 'bytearray', 'text', 'list', 'tuple', 'gen', 'textlist', 'textgen', 'bytesio', 'file', 'none']
+SOURCES = ['bytes', 'bytearray', 'text', 'list', 'tuple', 'gen', 'textlist', 'textgen', 'bytesio', 'file', 'bytesio-end', 'file-end', 'none']
 LENGTHS = [0, 1, 5, 300, 4095, 4096, 4097, 10000]
 OPS = [('prepare', 'compose'), ('prepare', 'compose', 'compose'), ('prepare', 'prepare', 'compose'), ('prepare', 'compose', 'prepare', 'compose'), ('prepare', 'compose', 'compose', 'prepare', 'compose')]
 
@@ -263,7 +263,7 @@ def model_lines(case):
 		seen[canon(k)] = v          # a dict: later assignments replace
 	for k, v in seen.items():
 		args += [hx(k.encode()), hx(v.encode('latin-1'))]
-	fl = 'f' if source in ('bytes', 'bytearray', 'text', 'bytesio', 'file') else 'l'
+	fl = 'f' if source in ('bytes', 'bytearray', 'text', 'bytesio', 'file', 'bytesio-end', 'file-end') else 'l'
 	return ['cp.run %s %d %d %d %s %s %s %d %s %s %s' % ('s' if kind == 'response' else 'r', 1 if method in ('GET', 'HEAD', 'SEARCH') else 0, 1 if req_method == 'HEAD' else 0, status,
 		'~' if chunked is None else int(chunked), opstr(ops), fl, len(seen), hx(enc), ' '.join(args), ' '.join(hx(p) for p in pieces))]
 
